@@ -149,6 +149,35 @@ Definition deregister_obj (w : world) (k : Z) : world * option bool :=
 (* Agent.remove: KeyError suppressed *)
 Definition agent_remove (w : world) (k : Z) : world := fst (deregister_obj w k).
 
+(* Agent subclasses that override remove().  The harness defines three such classes; what their overrides do
+   besides (or instead of) super().remove() is constructing agents for the removed agent's own model:
+     class 5  E(A): def remove(self): D(self.model, 50); super().remove()          (super called late)
+     class 6  F(D): def remove(self): super().remove(); D(self.model, 60)          (work after super)
+     class 7  G(A): def remove(self): pass                                          (forgets super().remove()) *)
+Record override := { ov_pre : list (Z * Z); ov_super : bool; ov_post : list (Z * Z) }.
+Definition ov_of (c : Z) : option override :=
+  if c =? 5 then Some {| ov_pre := [(3, 50)]; ov_super := true; ov_post := [] |}
+  else if c =? 6 then Some {| ov_pre := []; ov_super := true; ov_post := [(3, 60)] |}
+  else if c =? 7 then Some {| ov_pre := []; ov_super := false; ov_post := [] |}
+  else None.
+
+Definition creates (w : world) (m : Z) (l : list (Z * Z)) : world :=
+  fold_left (fun w cv => fst (agent_init w m (fst cv) (PInt (snd cv)))) l w.
+
+(* agent.remove() as Python dispatches it: the override of the agent's class if there is one *)
+Definition obj_remove (w : world) (k : Z) : world :=
+  match find_agent (w_born w) k with
+  | None => w
+  | Some a =>
+      match ov_of (a_cls a) with
+      | None => agent_remove w k
+      | Some o =>
+          let w1 := creates w (a_model a) (ov_pre o) in
+          let w2 := if ov_super o then agent_remove w1 k else w1 in
+          creates w2 (a_model a) (ov_post o)
+      end
+  end.
+
 (* Agent.create_agents *)
 Inductive form :=
 | FScalar (v : Z)            (* a single object *)
@@ -178,7 +207,7 @@ Definition create_agents (w : world) (m c n : Z) (f : form) : world * list Z :=
 Definition remove_all (w : world) (m : Z) : world :=
   match getm (w_models w) m with
   | None => w
-  | Some ms => fold_left agent_remove (m_hard ms) w
+  | Some ms => fold_left obj_remove (m_hard ms) w
   end.
 
 (* ---------- user code run by an activation ---------- *)
@@ -193,8 +222,8 @@ Inductive act :=
 Definition exec_act (w : world) (self : Z) (a : act) : world :=
   match a with
   | ANop => w
-  | ARemoveSelf => agent_remove w self
-  | ARemove k => agent_remove w k
+  | ARemoveSelf => obj_remove w self
+  | ARemove k => obj_remove w k
   | ACreate m c v => fst (agent_init w m c (PInt v))
   | ACreateMany m c n f => fst (create_agents w m c n f)
   | ARemoveAll m => remove_all w m
@@ -275,9 +304,13 @@ Definition step_op (w : world) (o : op) : world * list Z :=
       | Some _ => let '(w', ks) := create_agents w m c n f in (w', Z.of_nat (length ks) :: ks)
       end
   | Remove k =>
-      match deregister_obj w k with
-      | (w', None) => (w', OBS_NOOP)
-      | (w', Some _) => (w', [in_all_of_own_model w' k])
+      match find_agent (w_born w) k with
+      | None => (w, OBS_NOOP)
+      | Some a =>
+          match getm (w_models w) (a_model a) with
+          | None => (w, OBS_NOOP)
+          | Some _ => let w' := obj_remove w k in (w', [in_all_of_own_model w' k])
+          end
       end
   | Deregister k =>
       match deregister_obj w k with
